@@ -5,7 +5,7 @@ import Pun.Model.Proto
 * `getEcdf`     — `pba/ecdf.py get_ecdf` : sort the sample by value, cumulate the weights,
                   prepend the first value at level 0.  An ecdf is a list of points `(p, q)`.
 * `extendEcdf`  — `pba/utils.py extend_ecdf` : add level 0 / level 1 when missing.
-* `interpNext`  — `scipy interp1d(kind="next", fill_value=(p[0], p[-1]), bounds_error=False)`
+* `interpNext`  — `scipy interp1d(kind="next", fill_value=(q[0], q[-1]), bounds_error=False)`
                   as called by `pba/constructors.py interpolate_p` : stable sort by `p`, then the
                   value at the first `p_j ≥ x`.
 * `findNearest` — `pba/utils.py find_nearest` : index of the FIRST minimiser of `|a_j − v|`.
@@ -55,10 +55,11 @@ def firstGE : List (Rat × Rat) → Rat → Option Rat
   | [], _ => none
   | (p, q) :: r, x => if x ≤ p then some q else firstGE r x
 
-/-- `interp1d(p, q, kind="next", fill_value=(p[0], p[-1]), bounds_error=False)(x)` -/
+/-- `interp1d(p, q, kind="next", fill_value=(q[0], q[-1]), bounds_error=False)(x)` : outside the given
+levels the first / last quantile of the arrays as passed (a1b7679) -/
 def interpNext (e : List (Rat × Rat)) (x : Rat) : Option Rat :=
   match e, lastPt e with
-  | (p0, _) :: _, some (pl, _) =>
+  | (_, p0) :: _, some (_, pl) =>
     let se := sortByFst e
     match se, lastPt se with
     | (lo, _) :: _, some (hi, _) =>
